@@ -3,7 +3,12 @@
     [decisions checked cfg t0 h]: what [LimitManager::register] (as transcribed in
     Model/Limiter.v) answers along the sequential history [h] of (address, clock reading)
     pairs, for a limiter created at clock [t0]; [checked] = overflow checks on/off.
-    [fits n]: n <= (2^64-1)/3 calls — below that no usize of the code can overflow. *)
+    [fits n]: n <= (2^64-1)/3 calls — below that no usize of the code can overflow.
+    [decisions_ops checked cfg t0 ops]: the same for a history [ops] of [register] calls
+    interleaved with the setters ([set_max_requests], [set_check_every], [set_reset_seconds],
+    [disable]) on a manager whose first configuration is [cfg] ([new], [Default], a [Host]'s field).
+    [accept_loop checked sc t0 evs]: the accept loop of src/lib.rs with every counter and exit
+    path it has, over the pre-host limiter / host limiter pair described by [sc]. *)
 From KV Require Import Bytes RustInt Limiter LimiterProofs.
 Open Scope N_scope.
 
@@ -98,23 +103,143 @@ Theorem disabled_never_limits : forall (checked : bool) (cfg : config) (t0 : N) 
   state_after checked (disable cfg) t0 h = init t0.
 Proof. exact disabled_never_limits_model. Qed.
 
+(** ---- histories with configuration changes ------------------------------------------------ *)
+
+(** For every history of calls and configuration changes, from every first configuration, the
+    decisions are those of the reference counter computed from the configuration current at
+    each call. *)
+Theorem register_ops_refines_reference : forall (checked : bool) (cfg : config) (t0 : N) (ops : list op),
+  fits (length ops) -> decisions_ops checked cfg t0 ops = map Ok (reference_ops cfg t0 ops).
+Proof. exact register_ops_refines. Qed.
+
+Theorem register_ops_never_panics : forall (checked : bool) (cfg : config) (t0 : N) (ops : list op),
+  fits (length ops) -> Forall (fun d => exists a, d = Ok a) (decisions_ops checked cfg t0 ops).
+Proof. exact register_ops_no_panic. Qed.
+
+(** Without configuration changes the reference for operation histories ("at least the
+    [check_every]-th call since the last sampled one") is the reference of the property text
+    ("every [check_every]-th call overall"). *)
+Theorem reference_ops_agrees_with_reference : forall (cfg : config) (t0 : N) (h : list event),
+  fits (length h) -> reference_ops cfg t0 (map reg_of h) = reference cfg t0 h.
+Proof. exact reference_ops_constant. Qed.
+
+(** Every way to arrive at a configuration before the first call gives the same limiter:
+    a manager obtained with any first configuration [c0] ([Default], a [Host]'s field, [new]
+    with other values) and then changed by setters behaves as [new] with the resulting one. *)
+Theorem configuration_paths_agree : forall (checked : bool) (c0 : config) (t0 : N) (pre ops : list op),
+  no_reg pre = true ->
+  decisions_ops checked c0 t0 (pre ++ ops) = decisions_ops checked (config_after c0 pre) t0 ops.
+Proof. exact configuration_paths_agree_model. Qed.
+
+(** ... and the three setters, in any order, establish exactly the three values; [disable] is [set_check_every(usize::MAX)]. *)
+Theorem setters_establish_configuration : forall (c : config) (m k : N) (r : option N),
+  let target := {| max_requests := m; check_every := k; reset_after := r |} in
+  config_after c [SetMax m; SetEvery k; SetReset r] = target /\
+  config_after c [SetMax m; SetReset r; SetEvery k] = target /\
+  config_after c [SetEvery k; SetMax m; SetReset r] = target /\
+  config_after c [SetEvery k; SetReset r; SetMax m] = target /\
+  config_after c [SetReset r; SetMax m; SetEvery k] = target /\
+  config_after c [SetReset r; SetEvery k; SetMax m] = target /\
+  config_after c [Disable] = disable c /\
+  config_after c [SetEvery usize_max] = disable c.
+Proof. exact setters_establish_model. Qed.
+
+(** Isolation: the call [Reg b t] that follows [ops1] passes when the counted requests of [b]
+    in the window (this call included) are at most the maximum configured *at that moment*. *)
+Theorem isolation_ops : forall (checked : bool) (cfg : config) (t0 : N) (ops1 : list op) (b t : N) (ops2 : list op),
+  fits (length (ops1 ++ Reg b t :: ops2)) ->
+  counted_ops cfg t0 (ops1 ++ [Reg b t]) b <= max_requests (config_after cfg ops1) ->
+  nth_error (decisions_ops checked cfg t0 (ops1 ++ Reg b t :: ops2)) (length (regs ops1)) = Some (Ok Passed).
+Proof. exact isolation_ops_model. Qed.
+
+(** ... in particular when the address's own calls so far are at most the current maximum. *)
+Theorem isolation_own_traffic_ops : forall (checked : bool) (cfg : config) (t0 : N) (ops1 : list op) (b t : N) (ops2 : list op),
+  fits (length (ops1 ++ Reg b t :: ops2)) ->
+  calls_of b (regs (ops1 ++ [Reg b t])) <= max_requests (config_after cfg ops1) ->
+  nth_error (decisions_ops checked cfg t0 (ops1 ++ Reg b t :: ops2)) (length (regs ops1)) = Some (Ok Passed).
+Proof. exact isolation_own_traffic_ops_model. Qed.
+
+(** Neither other addresses nor configuration changes make a verdict harsher than the ladder of
+    the current maximum on the address's own calls so far. *)
+Theorem others_never_hurt_ops : forall (checked : bool) (cfg : config) (t0 : N) (ops1 : list op) (b t : N) (ops2 : list op),
+  fits (length (ops1 ++ Reg b t :: ops2)) ->
+  exists d, nth_error (decisions_ops checked cfg t0 (ops1 ++ Reg b t :: ops2)) (length (regs ops1)) = Some (Ok d) /\
+            action_code d <= action_code (ladder (max_requests (config_after cfg ops1))
+                                                 (calls_of b (regs (ops1 ++ [Reg b t])))).
+Proof. exact others_never_hurt_ops_model. Qed.
+
+(** From [disable()] until the next [set_check_every] every call passes and no counter moves. *)
+Theorem disabled_ops_never_limits : forall (checked : bool) (cfg : config) (t0 : N) (ops1 ops2 : list op),
+  no_set_every ops2 = true ->
+  decisions_ops checked cfg t0 (ops1 ++ Disable :: ops2)
+  = decisions_ops checked cfg t0 ops1 ++ repeat (Ok Passed) (length (regs ops2)) /\
+  state_after_ops checked cfg t0 (ops1 ++ Disable :: ops2) = state_after_ops checked cfg t0 ops1.
+Proof. exact disabled_ops_model. Qed.
+
+(** Reset: a due call made when the current reset time has passed leaves a new limiter with the current configuration. *)
+Theorem reset_forgets_ops : forall (checked : bool) (cfg : config) (t0 : N) (ops1 : list op) (a t : N) (ops2 : list op) (R : N),
+  let cfg1 := config_after cfg ops1 in
+  reset_after cfg1 = Some R -> check_every cfg1 <> usize_max ->
+  check_every cfg1 <= iteration (state_after_ops checked cfg t0 ops1) + 1 ->
+  R <= t - win_start (state_after_ops checked cfg t0 ops1) ->
+  decisions_ops checked cfg t0 (ops1 ++ Reg a t :: ops2)
+  = decisions_ops checked cfg t0 ops1 ++ Ok Passed :: decisions_ops checked cfg1 t ops2.
+Proof. exact reset_forgets_ops_model. Qed.
+
+(** ... and such a call comes within [check_every] (current value) calls when no setter intervenes. *)
+Theorem reset_within_check_every_ops : forall (checked : bool) (cfg : config) (t0 : N) (ops1 : list op) (h2 : list event) (R : N),
+  let cfg1 := config_after cfg ops1 in
+  reset_after cfg1 = Some R -> check_every cfg1 <> usize_max ->
+  h2 <> [] -> check_every cfg1 <= N.of_nat (length h2) ->
+  Forall (fun e => R <= snd e - win_start (state_after_ops checked cfg t0 ops1)) h2 ->
+  exists p a t s, h2 = p ++ (a, t) :: s /\
+    state_after_ops checked cfg t0 (ops1 ++ map reg_of (p ++ [(a, t)])) = init t /\
+    decisions_ops checked cfg t0 (ops1 ++ map reg_of (p ++ [(a, t)]))
+    = decisions_ops checked cfg t0 ops1 ++ repeat (Ok Passed) (S (length p)) /\
+    (p = [] \/ N.of_nat (length p) < check_every cfg1).
+Proof. exact reset_within_check_every_ops_model. Qed.
+
+Theorem iteration_never_overflows_ops : forall (checked : bool) (cfg : config) (t0 : N) (ops : list op),
+  cfgs_ok cfg ops -> iteration (state_after_ops checked cfg t0 ops) + 1 <= usize_max.
+Proof. exact iteration_ops_bounded. Qed.
+
+(** ---- the accept loop --------------------------------------------------------------------- *)
+
+(** Whether and how the accept loop has ended after ANY event list is [loop_spec]: a function
+    of the kinds of the accept events alone (shutdown request; more than 100 accept errors in a
+    row without an accepted connection).  No address, request count, limiter verdict or limiter
+    configuration occurs in it; and while it runs, nobody is refused. *)
+Theorem listener_status_is_loop_spec : forall (checked : bool) (sc : sconfig) (t0 : N) (evs : list conn_event),
+  fits (ev_calls_bound evs) ->
+  snd (accept_loop checked sc t0 evs) = loop_spec 0 evs /\
+  (loop_spec 0 evs = Running -> ~ In Refused (fst (accept_loop checked sc t0 evs))).
+Proof. exact listener_status_model. Qed.
+
 (** The accept loop is alive after any event list without a shutdown request and without 101
     consecutive accept errors, and no connection was refused. *)
-Theorem listener_survives : forall (checked : bool) (cfg : config) (t0 : N) (evs : list conn_event),
+Theorem listener_survives : forall (checked : bool) (sc : sconfig) (t0 : N) (evs : list conn_event),
   fits (ev_calls_bound evs) -> existsb is_shutdown evs = false -> max_err_run 0 evs <= 100 ->
-  snd (accept_loop checked cfg t0 evs) = true /\ ~ In Refused (fst (accept_loop checked cfg t0 evs)).
+  snd (accept_loop checked sc t0 evs) = Running /\ ~ In Refused (fst (accept_loop checked sc t0 evs)).
 Proof. exact listener_survives_model. Qed.
 
-(** What every connection receives is decided by the reference counter alone. *)
-Theorem server_refines_reference : forall (checked : bool) (cfg : config) (t0 : N) (cs : list connection),
-  fits (calls_bound cs) -> accept_loop checked cfg t0 (map conn_of cs) = (spec_server cfg t0 cs, true).
+(** ... and these are the only ways in which it ends. *)
+Theorem listener_stops_only_on_shutdown_or_errors : forall (checked : bool) (sc : sconfig) (t0 : N) (evs : list conn_event),
+  fits (ev_calls_bound evs) -> snd (accept_loop checked sc t0 evs) <> Running ->
+  existsb is_shutdown evs = true \/ 100 < max_err_run 0 evs.
+Proof. exact listener_stops_only_model. Qed.
+
+(** What every connection receives is decided by the reference counter(s) alone — for the
+    pre-host limiter being the clone taken by [insert], a clone with other settings, or a
+    separate manager. *)
+Theorem server_refines_reference : forall (checked : bool) (sc : sconfig) (t0 : N) (cs : list connection),
+  fits (calls_bound cs) -> accept_loop checked sc t0 (map conn_of cs) = (spec_server sc t0 cs, Running).
 Proof. exact server_refines_spec_model. Qed.
 
 (** kvarn 0.6.3 ([LimitAction::Drop => return Ok(())]) fails this: witness. *)
 Theorem listener_dies_063_refuted :
-  let cfg := {| max_requests := 0; check_every := 1; reset_after := Some 10000 |} in
-  accept_loop_063 true cfg 0 [Conn 1 0 []; Conn 2 1 [1]] = ([Served [] true; Refused], false) /\
-  accept_loop true cfg 0 [Conn 1 0 []; Conn 2 1 [1]] = ([Served [] true; Served [] true], true).
+  let sc := same_limiter {| max_requests := 0; check_every := 1; reset_after := Some 10000 |} in
+  accept_loop_063 true sc 0 [Conn 1 0 []; Conn 2 1 [1]] = ([Served [] true; Refused], ReturnedOk) /\
+  accept_loop true sc 0 [Conn 1 0 []; Conn 2 1 [1]] = ([Served [] true; Served [] true], Running).
 Proof. exact listener_dies_063_witness. Qed.
 
 (** Non-vacuity: concrete histories meeting the hypotheses. *)
@@ -159,15 +284,75 @@ Example ex_disabled : check_every (disable ex_cfg) = usize_max /\
   decisions true (disable ex_cfg) 0 ex_h = repeat (Ok Passed) 6.
 Proof. vm_compute. split; reflexivity. Qed.
 
+(** configuration changes: the [limiter] field of a [Host] (a [Default]: 10, 10, 10 s) set to
+    max 2 / every call / never reset with the setters: 429 for counted requests 3..6, dropped
+    from 7; raising the maximum to 4 in the middle moves both rungs at once (8..12 are 429). *)
+Definition ex_ops : list op :=
+  [SetMax 2; SetEvery 1; SetReset None] ++ repeat (Reg 7 0) 8 ++ [SetMax 4] ++ repeat (Reg 7 0) 6 ++ [Reg 9 0].
+Example ex_ops_decisions :
+  fits (length ex_ops) /\
+  decisions_ops true default_config 0 ex_ops
+  = [Ok Passed; Ok Passed; Ok Send; Ok Send; Ok Send; Ok Send; Ok Drop; Ok Drop;
+     Ok Send; Ok Send; Ok Send; Ok Send; Ok Drop; Ok Drop; Ok Passed] /\
+  no_reg [SetMax 2; SetEvery 1; SetReset None] = true /\
+  counted_ops default_config 0 ex_ops 9 = 1 /\ counted_ops default_config 0 ex_ops 7 = 14.
+Proof. vm_compute. repeat split; discriminate. Qed.
+Example ex_ops_own_traffic_hyp :
+  let ops1 := [SetMax 2; SetEvery 1; SetReset None] ++ repeat (Reg 7 0) 8 ++ [SetMax 4] ++ repeat (Reg 7 0) 6 in
+  ex_ops = ops1 ++ Reg 9 0 :: [] /\ calls_of 9 (regs (ops1 ++ [Reg 9 0])) <= max_requests (config_after default_config ops1) /\
+  length (regs ops1) = 14%nat.
+Proof. vm_compute. repeat split; discriminate. Qed.
+(** [check_every] lowered in the middle: the call is due at once (5 calls since the last sampled one >= 3). *)
+Example ex_ops_every :
+  decisions_ops true {| max_requests := 0; check_every := 10; reset_after := None |} 0
+    (repeat (Reg 1 0) 5 ++ [SetEvery 3; Reg 1 0; Reg 1 0; Reg 1 0; Reg 1 0; Disable; Reg 1 0; SetEvery 1; Reg 1 0])
+  = [Ok Passed; Ok Passed; Ok Passed; Ok Passed; Ok Passed; Ok Drop; Ok Passed; Ok Passed; Ok Drop; Ok Passed; Ok Drop]
+  /\ no_set_every [Reg 1 0] = true.
+Proof. vm_compute. split; reflexivity. Qed.
+Example ex_cfgs_ok : cfgs_ok default_config [SetEvery 3; Reg 1 0; Disable].
+Proof. split; [vm_compute; discriminate|]. repeat constructor. vm_compute. discriminate. Qed.
+Example ex_reset_ops_hyp :
+  let ops1 := [Reg 1 0; Reg 1 1; SetReset (Some 5)] in
+  reset_after (config_after ex_cfg ops1) = Some 5 /\
+  check_every (config_after ex_cfg ops1) <= iteration (state_after_ops true ex_cfg 0 ops1) + 1 /\
+  5 <= 20 - win_start (state_after_ops true ex_cfg 0 ops1) /\
+  decisions_ops true ex_cfg 0 (ops1 ++ Reg 1 20 :: [Reg 1 21; Reg 1 22]) = [Ok Passed; Ok Send; Ok Passed; Ok Passed; Ok Send].
+Proof. vm_compute. repeat split; discriminate. Qed.
+
+Example ex_reset_within_ops_hyp :
+  let ops1 := [Reg 1 0; Reg 1 1; SetReset (Some 5); SetEvery 2] in
+  Forall (fun e => 5 <= snd e - win_start (state_after_ops true ex_cfg 0 ops1)) [(1, 20); (2, 21)] /\
+  check_every (config_after ex_cfg ops1) <= N.of_nat (length [(1, 20); (2, 21)]).
+Proof. split; [repeat constructor; vm_compute; discriminate|vm_compute; discriminate]. Qed.
+
 (** accept loop: address 1 is dropped at accept (after an accept error in between);
     address 2 is then served normally. *)
 Definition ex_cfg2 : config := {| max_requests := 2; check_every := 1; reset_after := None |}.
 Definition ex_evs : list conn_event :=
-  [Conn 1 0 [0; 0; 0; 0; 0; 0; 0]; AcceptErr; Conn 1 1 [1]; Conn 2 2 [2]; Conn 1 3 []].
+  [Conn 1 0 [0; 0; 0; 0; 0; 0; 0]; AcceptErr; Conn 1 1 [1]; AcceptTimeout; Other true 3 1; Conn 2 2 [2]; Conn 1 3 []].
 Example ex_listener_hyp :
   fits (ev_calls_bound ex_evs) /\ existsb is_shutdown ex_evs = false /\ max_err_run 0 ex_evs <= 100 /\
-  accept_loop true ex_cfg2 0 ex_evs
-  = ([Served [Normal; TooMany; TooMany; TooMany; TooMany] true; Served [] true; Served [Normal] false; Served [] true], true).
+  accept_loop true (same_limiter ex_cfg2) 0 ex_evs
+  = ([Served [Normal; TooMany; TooMany; TooMany; TooMany] true; Served [] true; Served [Normal] false; Served [] true], Running).
 Proof. vm_compute. repeat split; discriminate. Qed.
-Example ex_too_many_errors : snd (accept_loop true ex_cfg 0 (repeat AcceptErr 101 ++ [Conn 1 0 []])) = false.
+(** a flood: 150 connections of address 1 dropped in a row, with 100 accept errors before and
+    after; address 2 is served, the loop runs. *)
+Definition ex_flood : list conn_event :=
+  [Conn 1 0 [0; 0; 0; 0; 0; 0; 0]] ++ repeat AcceptErr 100 ++ repeat (Conn 1 1 [1]) 150 ++ repeat AcceptErr 100 ++ [Conn 2 2 [2]].
+Example ex_flood_survives :
+  max_err_run 0 ex_flood = 100 /\ loop_spec 0 ex_flood = Running /\
+  snd (accept_loop true (same_limiter ex_cfg2) 0 ex_flood) = Running /\
+  last (fst (accept_loop true (same_limiter ex_cfg2) 0 ex_flood)) Refused = Served [Normal] false.
+Proof. vm_compute. repeat split; reflexivity. Qed.
+Example ex_too_many_errors :
+  snd (accept_loop true (same_limiter ex_cfg) 0 (repeat AcceptErr 101 ++ [Conn 1 0 []])) = ReturnedErr /\
+  100 < max_err_run 0 (repeat AcceptErr 101 ++ [Conn 1 0 []]) /\
+  snd (accept_loop true (same_limiter ex_cfg) 0 [Conn 1 0 []; Shutdown; Conn 1 0 []]) = ReturnedOk.
+Proof. vm_compute. repeat split; reflexivity. Qed.
+(** a separate pre-host limiter (max 0: every connection of a counted address is dropped at
+    accept) in front of a generous host limiter *)
+Example ex_separate_pre :
+  accept_loop true {| pre_cfg := {| max_requests := 0; check_every := 2; reset_after := None |};
+                      host_cfg := ex_cfg2; shared := false |} 0 [Conn 1 0 [0]; Conn 1 0 [0]; Conn 2 0 [0; 0; 0]]
+  = ([Served [Normal] false; Served [] true; Served [Normal; Normal; TooMany] false], Running).
 Proof. vm_compute. reflexivity. Qed.
